@@ -254,14 +254,19 @@ func quotedQualifierParser(prefix string) pars.Parser {
 		}
 		state.Drop()
 		pars.EOL(state, pars.Void)
+		// Strip the indent that follows every line break of the value in a
+		// single pass over the token.
 		token := result.Token
-		i := bytes.Index(token, p)
-		for i >= 0 {
-			n := copy(token[i+1:], token[i+len(p):])
-			token = token[:i+1+n]
-			i = bytes.Index(token, p)
+		out, rest := token[:0], token
+		for i := bytes.Index(rest, p); i >= 0; i = bytes.Index(rest, p) {
+			out = append(out, rest[:i+1]...)
+			rest = rest[i+len(p):]
+			for len(prefix) > 0 && bytes.HasPrefix(rest, []byte(prefix)) {
+				rest = rest[len(prefix):]
+			}
 		}
-		result.SetToken(token)
+		out = append(out, rest...)
+		result.SetToken(out)
 		return nil
 	}
 }
